@@ -163,6 +163,15 @@ def coq_flags(pid):
 
 def build_common():
     d = os.path.join(COQ, "Common")
+    # Common is small and stable: rebuild only when a source is newer than its .vo (concurrent checks share it)
+    fresh = True
+    for f in os.listdir(d):
+        if f.endswith(".v"):
+            vo = os.path.join(d, f + "o")
+            if not os.path.exists(vo) or os.path.getmtime(vo) < os.path.getmtime(os.path.join(d, f)):
+                fresh = False
+    if fresh:
+        return 0, ""
     rc, out = sh("coq_makefile -f _CoqProject -o Makefile >/dev/null 2>&1; timeout 600 make -j%d 2>&1" % NPROC, cwd=d)
     return rc, out
 
@@ -310,10 +319,16 @@ def model_output_text(pid, suite, coq_pair):
 
 # ----------------------------------------------------------------------------------------------
 def load_known():
+    out = []
     p = os.path.join(VERIF, "known_findings.json")
-    if not os.path.exists(p):
-        return []
-    return json.load(open(p)).get("findings", [])
+    if os.path.exists(p):
+        out += json.load(open(p)).get("findings", [])
+    d = os.path.join(VERIF, "known_findings.d")     # per-property staging files, merged by tools/mkmanifest.py
+    if os.path.isdir(d):
+        for fn in sorted(os.listdir(d)):
+            if fn.endswith(".json"):
+                out += json.load(open(os.path.join(d, fn))).get("findings", [])
+    return out
 
 
 def case_hash(obj):
